@@ -6,6 +6,7 @@ pub mod c01;
 pub mod c02;
 pub mod c03;
 pub mod c04;
+pub mod c05;
 pub mod c06;
 pub mod c07;
 pub mod c09;
@@ -54,6 +55,7 @@ pub async fn dispatch(prop: &str, ctx: &Ctx, rep: &mut Report) -> bool {
         "C02" => c02::run(ctx, rep).await,
         "C03" => c03::run(ctx, rep).await,
         "C04" => c04::run(ctx, rep).await,
+        "C05" => c05::run(ctx, rep).await,
         "C06" => c06::run(ctx, rep).await,
         "C07" => c07::run(ctx, rep).await,
         "C09" => c09::run(ctx, rep).await,
